@@ -137,21 +137,89 @@ def check_L5(report, facts, rule):
         report.check(not bad, rule, '{}: parameter `labels` never rebound'.format(name),
                      lambda bad=bad, name=name: Finding(rule, name, getattr(bad[0], '_parent', bad[0]),
                                                         'the pass rebinds `labels`: its updates no longer reach the table the caller reads', line=bad[0].lineno))
-        idx = params.index('labels')
-        ok = idx < len(args) and args[idx] == 'labels'
-        report.check(ok, rule, 'assemble passes its labels dict to {}'.format(name),
-                     lambda node=node, name=name: Finding(rule, 'assemble', node, '{} does not receive the label table of this assemble() call'.format(name), line=node.lineno))
-    fn = facts.funcs['assemble']
-    binds = [n for n in ast.walk(fn) if isinstance(n, ast.Assign) and any(isinstance(t, ast.Name) and t.id == 'labels' for t in n.targets)]
-    good = True
-    for b in binds:
-        v = b.value
-        # labels = labels if labels is not None else {}
-        if not (isinstance(v, ast.IfExp) and unparse(v.body) == 'labels' and isinstance(v.orelse, ast.Dict) and not v.orelse.keys
-                and unparse(v.test) in ('labels is not None',)):
-            good = False
-    report.check(good, rule, 'assemble keeps the caller\'s labels dict when one is given',
-                 lambda: Finding(rule, 'assemble', binds[0], 'assemble replaces the caller-supplied labels dict', line=binds[0].lineno))
+        pass
+    # assemble hands one and the same table to every pass that takes `labels`: the caller's dict when one is given
+    from .layout import pass_pipeline
+    pl = pass_pipeline(facts)
+    afn = facts.funcs['assemble']
+    n = 0
+    # `if labels is None: labels = {}` forks the evaluation: on one path every pass gets the caller's dict, on the other an object
+    # created in this call.  A fresh object is fine on a path as long as the caller's dict is what the pass gets on another one.
+    seen_values = {}
+    from .layout import item_passes as _ip
+    for value, calls in pl.all_paths():
+        for nm, c, its in _ip(facts, calls):
+            f = facts.funcs.get(c.name)
+            if f is None:
+                continue
+            params = [a.arg for a in f.args.args]
+            if 'labels' in params and params.index('labels') < len(c.args):
+                seen_values.setdefault(c.name, set()).add(c.args[params.index('labels')])
+    for value, calls, assumed in pl.all_paths_with_assumptions():
+        none_path = ('labels is None', True) in assumed or ('labels is not None', False) in assumed or ('labels == None', True) in assumed \
+            or ('not labels is None', False) in assumed
+        tables = []
+        from .layout import item_passes
+        for nm, c, its in item_passes(facts, calls):
+            f = facts.funcs.get(c.name)
+            if f is None:
+                continue
+            params = [a.arg for a in f.args.args]
+            if 'labels' not in params:
+                continue
+            idx = params.index('labels')
+            v = c.args[idx] if idx < len(c.args) else dict(c.kwargs).get('labels') if not isinstance(c.kwargs, dict) else c.kwargs.get('labels')
+            tables.append((c, v))
+        for c, v in tables:
+            n += 1
+            ok = v is not None and (caller_table(v, 'labels') or (v[0] == 'ref' and none_path and ('param', 'labels') in seen_values.get(c.name, set())))
+            report.check(ok, rule, 'compress={}: {} receives the caller\'s labels dict (a fresh one only when none is given)'.format(value, c.name),
+                         lambda c=c, v=v: Finding(rule, 'assemble', c.node, '{} does not receive the label table of this assemble() call (it gets {})'.format(
+                             c.name, v[:2] if v else None), line=getattr(c.node, 'lineno', afn.lineno)))
+            report.check(v == tables[0][1], rule, 'compress={}: {} receives the same table as {}'.format(value, c.name, tables[0][0].name),
+                         lambda c=c: Finding(rule, 'assemble', c.node, '{} is handed a different label table than {}'.format(c.name, tables[0][0].name),
+                                             line=getattr(c.node, 'lineno', afn.lineno)), nontrivial=False)
+    report.count('label table hand-overs', n)
+
+
+def param_holds_labels(facts, fname, pname):
+    """Does parameter `pname` of pass `fname` receive the label table (as opposed to the constants table) from assemble?
+    True / False, or None when the pass is not called with that parameter on any evaluated path."""
+    from .layout import pass_pipeline, item_passes
+    from .passorder import origins
+    f = facts.funcs.get(fname)
+    if f is None:
+        return None
+    params = [a.arg for a in f.args.args]
+    if pname not in params:
+        return None
+    idx = params.index(pname)
+    verdict = None
+    for value, calls in pass_pipeline(facts).all_paths():
+        for nm, c, its in item_passes(facts, calls):
+            if c.name != fname and nm != fname:
+                continue
+            v = c.args[idx] if idx < len(c.args) else None
+            if v is None:
+                continue
+            leaves = origins(v)
+            hit = any(l == ('param', 'labels') for l in leaves)
+            verdict = bool(verdict) or hit
+    return verdict
+
+
+def caller_table(v, pname):
+    """The abstract value is the caller's argument `pname`, replaced by an object created in this call exactly when it is None."""
+    if v == ('param', pname):
+        return True
+    if v[0] == 'choice':
+        test = ' '.join(str(v[1]).split())
+        a, b = v[2], v[3]
+        if test in ('{} is not None'.format(pname), '{} != None'.format(pname), 'not {} is None'.format(pname)):
+            return a == ('param', pname) and b[0] == 'ref'
+        if test in ('{} is None'.format(pname), '{} == None'.format(pname)):
+            return b == ('param', pname) and a[0] == 'ref'
+    return False
 
 
 def pass_effects(facts):
@@ -169,6 +237,11 @@ def pass_effects(facts):
         for r in pa.rows:
             if r['acc'].label_updates or r['acc'].label_sets:
                 eff.add('MUT')
+            # a value computed from the running offset is stored into an emitted item (align padding): it is only right if no
+            # later pass changes the size of anything before it
+            if pa.pos_var is not None and any(IS.contains(val, ('lv', pa.pos_var)) for val, n in r['app_values']):
+                eff.add('BAKE')
+                eff.add('POSBAKE')
         for s in sites:
             if s.fn == name or s.fn.startswith(name + '.'):
                 uses_labels = IS.contains(s.env, ('name', 'labels')) or s.env[0] == 'name'
@@ -181,6 +254,25 @@ def pass_effects(facts):
                 eff.add('BAKE' if c['kind'] == 'BAKE' else 'PEEK')
         out[name] = eff
     return out
+
+
+def check_position_frozen(report, facts, rule):
+    """A pass that stores a function of the running byte offset into the items it emits (align padding) must not be followed by
+    a pass that still changes item sizes: the padding would no longer bring the offset to the boundary."""
+    eff = pass_effects(facts)
+    n = 0
+    for compress in (False, True):
+        order = [(nm, node) for nm, g, node, a, t in pipeline(facts) if g == 'always' or (g == 'compress' and compress)]
+        for b, (nm, node) in enumerate(order):
+            if 'POSBAKE' not in eff.get(nm, ()):
+                continue
+            n += 1
+            late = [order[m][0] for m in range(b + 1, len(order)) if 'MUT' in eff.get(order[m][0], ())]
+            report.check(not late, rule, 'compress={}: no pass changes item sizes after {} has fixed offset-dependent bytes'.format(compress, nm),
+                         lambda nm=nm, late=late, node=node: Finding(rule, 'assemble', node,
+                                                                  '{} emits bytes computed from the running offset, but {} still change(s) item sizes afterwards: the padding no longer '
+                                                                  'ends on the requested boundary'.format(nm, late), line=node.lineno))
+    report.count('offset-dependent emission passes', n)
 
 
 def check_bake_after_mut(report, facts, rule):
